@@ -57,9 +57,11 @@ def geometry_strategy(max_offdiag=3.0, logscale=3.0, shapes=None):
         c["L"] = [draw(fl(-1.0, 1.0)) for _ in range(3)]
         c["logs"] = [draw(fl(-logscale, logscale)) for _ in range(3)]
         c["loga"] = draw(fl(-2.0, 2.0))
-        c["bamp"] = [draw(st.one_of(st.just(0.0), fl(-2.0, 2.0)))
+        c["bamp"] = [draw(st.one_of(st.just(0.0), fl(-2.0, 2.0),
+                                    fl(-2.0, 2.0), fl(-2.0, 2.0)))
                      for _ in range(3)]
-        c["kamp"] = draw(st.one_of(st.just(0.0), fl(-3.0, 3.0)))
+        c["kamp"] = draw(st.one_of(st.just(0.0), fl(-3.0, 3.0),
+                                   fl(-3.0, 3.0)))
         c["kc"] = [draw(fl(-1.0, 1.0)) for _ in range(6)]
         return c
     return geo()
@@ -246,3 +248,116 @@ class Cmp:
             self.note.fail(disc, obs)
             return False
         return True
+
+
+# ---------------------------------------------------------------------------
+# small linear-algebra helpers on (n, n, grid) fields and the textbook 3+1
+# reference
+
+
+def I_like(n, shape):
+    out = np.zeros((n, n) + tuple(shape))
+    for i in range(n):
+        out[i, i] = 1.0
+    return out
+
+
+def mm(A, B):
+    return np.einsum('ik...,kj...->ij...', A, B)
+
+
+def inv_field(Ah, kap):
+    """numpy.linalg.inv at the decidable points (identity elsewhere)."""
+    n = Ah.shape[0]
+    ok = np.isfinite(kap)
+    Al = grid_to_last(Ah, 2).copy()
+    Al[~ok] = np.eye(n)
+    return last_to_grid(np.linalg.inv(Al), 2)
+
+
+def det_field(Ah):
+    return np.linalg.det(grid_to_last(Ah, 2))
+
+
+def sym_scales(A):
+    """d_i = sqrt(max_j |A_ij|) (1 where the row vanishes)"""
+    m = np.max(np.abs(A), axis=1)
+    return np.sqrt(np.where(m > 0, m, 1.0))
+
+
+def decide(kap):
+    return np.where(kap <= 1e10, kap, np.inf)
+
+
+def offdiag_cond(Ah, A):
+    n = Ah.shape[0]
+    od = np.zeros(Ah.shape[2:])
+    for i in range(n):
+        for j in range(n):
+            if i != j:
+                od = np.maximum(od, np.abs(Ah[i, j]))
+    with np.errstate(all='ignore'):
+        c2 = np.linalg.cond(grid_to_last(A, 2))
+    return od, c2
+
+
+class Ref:
+    """Textbook 3+1 reference written independently of aurel."""
+
+    def __init__(self, f):
+        gam, al, bu, K = f["gamma"], f["alpha"], f["betaup"], f["K"]
+        shape = f["shape"]
+        self.shape = shape
+        self.d = np.sqrt(np.array([gam[i, i] for i in range(3)]))
+        self.d4 = np.concatenate([al[None], self.d])
+        self.Gh = eq(gam, 'dd', self.d)
+        self.kap3 = decide(kappa(self.Gh))
+        self.Ghi = inv_field(self.Gh, self.kap3)
+        self.Gi = np.maximum(1.0, amax(self.Ghi, 2))
+        self.gup = eq(self.Ghi, 'dd', self.d)
+        self.vol = np.prod(self.d, axis=0) ** 2
+        self.detGh = det_field(self.Gh)
+        self.detgam = self.detGh * self.vol
+        self.bd = np.zeros((3,) + shape)
+        for i in range(3):
+            for j in range(3):
+                self.bd[i] += gam[i, j] * bu[j]
+        self.bmag = sum(bu[i] * self.bd[i] for i in range(3))
+        g4 = np.zeros((4, 4) + shape)
+        g4[0, 0] = -al**2 + self.bmag
+        g4[0, 1:] = self.bd
+        g4[1:, 0] = self.bd
+        g4[1:, 1:] = gam
+        self.g4 = g4
+        g4u = np.zeros((4, 4) + shape)
+        g4u[0, 0] = -1.0 / al**2
+        g4u[0, 1:] = bu / al**2
+        g4u[1:, 0] = bu / al**2
+        g4u[1:, 1:] = self.gup - np.einsum('i...,j...->ij...', bu, bu) / al**2
+        self.g4u = g4u
+        self.nup = np.concatenate([(1.0 / al)[None], -bu / al])
+        self.ndown = np.zeros((4,) + shape)
+        self.ndown[0] = -al
+        # frame A (alpha, d_i): assembly of the 4-metric from 3+1 pieces
+        self.g4h = eq(g4, 'dd', self.d4)
+        self.bh = eq(bu, 'u', self.d) / al
+        self.b = amax(self.bh, 1)
+        self.M4 = np.maximum(1.0, amax(self.g4h, 2))
+        # frame S (sqrt of row maxima of g, |entries| <= 1): everything
+        # that involves the inverse / determinant of the 4-metric
+        self.e4 = sym_scales(g4)
+        self.g4s = eq(g4, 'dd', self.e4)
+        self.g4us = eq(g4u, 'uu', self.e4)
+        self.kap4 = decide(kappa(self.g4s))
+        self.kap = np.maximum(self.kap3, self.kap4)
+        self.M4us = np.maximum(1.0, amax(self.g4us, 2))
+        self.vol4 = np.prod(self.e4, axis=0) ** 2
+        self.Kh = eq(K, 'dd', self.d)
+        self.Km = amax(self.Kh, 2)
+        self.al = al
+        self.gam = gam
+        self.bu = bu
+        self.K = K
+        self.od, self.c2 = offdiag_cond(self.Gh, gam)
+
+
